@@ -108,6 +108,9 @@ class Setup(System):
         super().__init__("setup", model, priority=0)
 
     def execute(self):
+        # sets the model up: registers the phase systems (in this order), then lets itself go
+        for sid in ("late1", "late2", "late3", "late4"):
+            self.model.systems.add_system(Extra(self.model, sid))
         self.clean_up()
 
 
